@@ -484,6 +484,16 @@ def summarise(ctx, b, flavour):
             top_l, _ = project_lits(implied_facts(ev.guards(res, top["bb"])))
             inner = frozenset(all_l - top_l) if e is not top else frozenset()
             items.cur = [c | inner for c in bd]
+        if e.get("subst") and items.cur is not None:
+            # the entry stands for one alternative of a merged dispatch: its exact condition is the one of the paths over that alternative's edge, and
+            # speaks about that alternative
+            (origin, jb), = e["extra_edges"][:1]
+            d_ = block_dnf_forced(e["bb"], ((jb, origin),))
+            if d_ is None:
+                items.cur = None
+            else:
+                kf, kt = k.t(e["subst"][0]), k.t(e["subst"][1])
+                items.cur = [frozenset(term_map(l, lambda x: kt if x == kf else None) for l in c) for c in d_]
         items.cur_extra = frozenset()
         kind = e["kind"]
         if kind == "ret0" and not e["chain"]:
